@@ -50,7 +50,7 @@ def run_units(exe, units, env, timeout=900):
             break
         i = j + 1
         restarts += 1
-        if restarts > 5:
+        if restarts > 2:
             for k in range(i, len(units)):
                 out[k] = ("SKIPPED", [])
             break
@@ -299,6 +299,9 @@ def run(ctx):
         batches.append(("M4", (ns, nwk), gen_m4(rng.fork(), ns, nwk, quick)))
     batches.append(("M3", (1, 1), gen_m3(rng.fork(), 160 if quick else 1600)))
     for (name, (ns, nwk), cases) in batches:
+        if len(ofail) >= 6:
+            ctx.notes.append("stopped before batch %s %dx%d: %d failing inputs already found" % (name, ns, nwk, len(ofail)))
+            break
         hdr, outs = run_units(exe, [c.impl for c in cases], core.qenv(ns, nwk, stack=65536))
         _, hs, hw = hdr.split()
         if int(hs) != ns or int(hw) != ns * nwk:
